@@ -352,11 +352,22 @@ class Compiler:
         if not link_base["promise"].settled:
             link_base["promise"].settle(0o1000)
 
-        base, code = wait(link_base["promise"]), wait(generated_code)
+        try:
+            base, code = wait(link_base["promise"]), wait(generated_code)
 
-        # Resolve all symbols, in case some have not been used
-        for _, (_, value) in self.symbols.items():
-            wait(value)
+            # Resolve all symbols, in case some have not been used
+            for _, (_, value) in self.symbols.items():
+                wait(value)
+        except DeferredCycle:
+            # A genuine cycle: a symbol defined through itself, or a statement
+            # whose size depends on a label behind it. We do not know which
+            # statement closes the loop, so point at the start of the program.
+            start = files_ast[0].body.ctx_start
+            reports.error(
+                "recursive-definition",
+                (start, start, "A value in this program depends on itself and cannot be determined:\neither a symbol is defined through itself ('a = a'), or the size of a statement depends\non the address of a label behind it ('.blkb end - start' between 'start:' and 'end:').")
+            )
+            raise reports.RecoverableError("Cyclic definition") from None
 
         return base, code
 
